@@ -51,7 +51,7 @@ func (d *database[T, O]) startRotationTask() error {
 	options := d.segmentController.getOptions()
 	var rt *retentionTask[T, O]
 	if !d.disableRetention {
-		rt = newRetentionTask(d, options.TTL)
+		rt = newRetentionTask(d)
 	}
 	run.Go(context.Background(), "storage-rotation", d.logger, func(taskCtx context.Context) {
 		var idleCheckTicker *time.Ticker
@@ -150,17 +150,15 @@ type retentionTask[T TSTable, O any] struct {
 	running  chan struct{}
 	expr     string
 	option   cron.ParseOption
-	duration time.Duration
 }
 
-func newRetentionTask[T TSTable, O any](database *database[T, O], ttl IntervalRule) *retentionTask[T, O] {
+func newRetentionTask[T TSTable, O any](database *database[T, O]) *retentionTask[T, O] {
 	return &retentionTask[T, O]{
 		database: database,
 		option:   cron.Minute | cron.Hour,
 		// Remove data which is
-		expr:     "5 0",
-		duration: ttl.estimatedDuration(),
-		running:  make(chan struct{}, 1),
+		expr:    "5 0",
+		running: make(chan struct{}, 1),
 	}
 }
 
@@ -186,7 +184,11 @@ func (rc *retentionTask[T, O]) run(_ context.Context, now time.Time, l *logger.L
 
 	rc.database.incTotalRetentionStarted(1)
 	defer rc.database.incTotalRetentionFinished(1)
-	deadline := now.Add(-rc.duration)
+	// Read the TTL on every run: UpdateOptions may have changed it since the
+	// task was created, and queries already honor the current value (see
+	// getRetentionDeadline). A TTL captured at creation would keep deleting
+	// segments that a later, longer TTL still protects.
+	deadline := now.Add(-rc.database.segmentController.getOptions().TTL.estimatedDuration())
 	start := time.Now()
 	hasData, err := rc.database.segmentController.remove(deadline)
 	if hasData {
